@@ -1,6 +1,320 @@
-/- C11 — placeholder while the proofs are being written (theorems follow). -/
-import Strophe.Model.Handler
+/-
+C11 — Handlers fire exactly when their filter matches, in order, and stay deleted.   Property theorems only.
+
+`Strophe.Handler` is the model of src/handler.c (registration with duplicate suppression, deletion by
+callback pointer, `handler_fire_stanza` with its id phase and stanza phase, `handler_fire_timed` over
+all connections and the context-wide list, `handler_reset_timed`, `handler_system_delete_all`, release),
+tied to the real code by the engine `hnd` (after every op: invocations in order + every handler list).
+Handler behaviours are ARBITRARY functions `Beh = Key → Nat → Step`: on its k-th invocation a callback
+returns keep/remove and performs any list of API calls (add stanza / id / timed / context-wide handlers,
+delete by callback function, send, let time pass).  States are arbitrary well-formed states (`WF`: what
+every reachable state satisfies, `wf_reachable`) or the states reachable from the empty context by
+arbitrary op lists (`run`).  No bounds anywhere.
+
+`HandlerSpec` is the specification written from the property text: `Matches`, `expected`.
+-/
+import Strophe.Lemmas.HandlerGone
+
 namespace Strophe.C11
-open Strophe.Handler
-theorem after_nil (u : Nat) : after [] u = none := rfl
+open Strophe Strophe.Handler Strophe.HandlerSpec Strophe.Lemmas.Handler
+
+/-! ### filters -/
+
+/-- the C expression of `handler_fire_stanza` is the filter semantics of the documentation: an absent
+    filter matches everything, the namespace filter matches the stanza's `xmlns` or that of a direct
+    child, name and type match the top-level element -/
+theorem match_def (f : Filter) (s : Stanza) :
+    matchesC f s = true ↔
+      (f.ns = none ∨ s.ns = f.ns ∨ f.ns ∈ s.children) ∧ (f.name = none ∨ s.name = f.name) ∧
+      (f.type = none ∨ s.type = f.type) :=
+  matchesC_iff f s
+
+/-! ### dispatch -/
+
+/-- what is compared of an invocation: callback class, connection, the stanza the callback saw,
+    registration, callback × user data, result -/
+def view (v : Inv) : Cls × Nat × Option Str × Nat × Key × Bool := (v.cls, v.conn, v.name, v.uid, ⟨v.fn, v.ud⟩, v.ret)
+
+/-- FIRE_EXACT.  For every well-formed state, every stanza and EVERY behaviour of the callbacks: if the
+    dispatch returns, the callbacks it invoked are exactly `HandlerSpec.expected` — the id handlers
+    registered for the stanza's id, then the stanza handlers whose filters match, each once, in
+    registration order, as registered when the dispatch started, minus those whose callback function
+    an earlier callback of this dispatch deleted; user handlers only once the stream is negotiated. -/
+theorem fire_exact (beh : Beh) (st : St) (c : Nat) (s : Stanza) (st' : St) (w : WF st)
+    (h : fireStanza beh st c s = .ok st') :
+    ∃ L, st'.log = st.log ++ L ∧
+      L.map view =
+        (expected beh c (st.conns c).negotiated s st.cnt (idRegistered st c s) (st.conns c).handlers).map
+          fun k => (Cls.stanza, c, s.name, k.reg, k.key, k.ret) := by
+  have sp := fireStanza_spec beh st c s w
+  rw [h] at sp
+  refine ⟨_, sp.1, ?_⟩
+  rw [expected_eq]
+  simp only [List.map_append, List.map_map]
+  rfl
+
+/-- ADDED_DURING_DISPATCH_SKIPS_CURRENT.  Whatever is registered while a stanza is being dispatched
+    (by an id handler or a stanza handler, on any list) gets an allocation number ≥ the counter at the
+    start of the dispatch; every callback the dispatch invokes has a smaller one: a handler added
+    during the dispatch does not see the stanza.  (False before commit 1276665 — D27.) -/
+theorem added_during_dispatch_skips_current (beh : Beh) (st : St) (c : Nat) (s : Stanza) (st' : St) (w : WF st)
+    (h : fireStanza beh st c s = .ok st') :
+    ∃ L, st'.log = st.log ++ L ∧ ∀ v ∈ L, v.uid < st.nextUid := by
+  have sp := fireStanza_post beh st c s w
+  rw [h] at sp
+  obtain ⟨_, _, L, e, hL⟩ := sp
+  exact ⟨L, e, fun v hv => (hL v hv).2.2⟩
+
+/-- … and a new registration gets exactly the counter value -/
+theorem added_gets_fresh_uid (st : St) (c fn ud : Nat) (flt : Filter) (user : Bool)
+    (h : hasKey (st.conns c).handlers fn ud = false) :
+    ∃ it, ((handlerAdd st c fn ud flt user).conns c).handlers = (st.conns c).handlers ++ [it] ∧
+      it.uid = st.nextUid ∧ it.enabled = false := by
+  refine ⟨{ uid := st.nextUid, fn, ud, user, enabled := false, flt }, ?_, rfl, rfl⟩
+  simp [handlerAdd, h]
+
+/-! ### no use of freed list items -/
+
+/- NO_STALE_ACCESS at full strength:
+     ∀ beh ops, run beh {} ops ≠ .error .stale
+   is FALSE of the faithful model (`no_stale_access_false`) and of the real code
+   (corpus/C11/self-delete-*.ops, known finding `C11:self-delete:*`): the delete functions work by
+   callback pointer, so a callback that deletes its own callback function frees the item the loop is
+   standing on. -/
+
+/-- NO_STALE_ACCESS (partial: behaviours in which no callback deletes its own callback function).
+    For every such behaviour and every op list from the empty context, no dispatch loop ever
+    dereferences a freed list item, and the loops' fuel is never exhausted.  Missing for the full
+    statement: self-deleting callbacks (see above). -/
+theorem no_stale_access_partial (beh : Beh) (hb : ¬ SelfDeleting beh) (ops : List Op) (e : Err) :
+    run beh {} ops ≠ .error e := by
+  intro h
+  have := run_post beh ops {} wf_init
+  rw [h] at this
+  cases e with
+  | stale => exact hb this
+  | fuel => exact this
+
+/-- the fuel of the loops (number of items when the loop starts) is enough for EVERY behaviour -/
+theorem fuel_enough (beh : Beh) (ops : List Op) : run beh {} ops ≠ .error .fuel := by
+  intro h
+  have := run_post beh ops {} wf_init
+  rw [h] at this
+  exact this
+
+/-- a dispatch reaches a freed item only if one of the callbacks it invoked deleted its own callback
+    function from the list it was dispatched from -/
+theorem stale_only_if_self_delete (beh : Beh) (st : St) (c : Nat) (s : Stanza) (w : WF st)
+    (h : fireStanza beh st c s = .error .stale) : selfDelI beh st c s ∨ selfDelH beh st c s := by
+  have sp := fireStanza_spec beh st c s w
+  rw [h] at sp
+  exact sp
+
+/-- handler 1.0 deletes callback function 1 while it runs -/
+def selfDeleter : Beh := fun k n => if k.fn = 1 ∧ n = 0 then { keep := true, acts := [.del 0 1] } else {}
+
+def isStale : Except Err St → Bool
+  | .error .stale => true
+  | _ => false
+
+/-- the negation of the full statement, by a concrete witness (replayed on the real code:
+    corpus/C11/self-delete-stanza.ops) -/
+theorem no_stale_access_false :
+    isStale (run selfDeleter {} [.add 0 1 0 {} true, .add 0 1 1 {} true, .fire 0 { name := some [105] }]) = true := by
+  decide
+
+/-- every reachable state is well-formed: allocation numbers below the counter, no allocation and no
+    callback × user data twice in a list -/
+theorem wf_reachable (beh : Beh) (ops : List Op) (st : St) (h : run beh {} ops = .ok st) : WF st := by
+  have := run_post beh ops {} wf_init
+  rw [h] at this
+  exact this.1
+
+/-! ### duplicates -/
+
+/-- DUPLICATE_KEPT_ONCE: registering a callback × user data that is already in the list changes
+    nothing (all four lists; for stanza handlers whatever the filters are) … -/
+theorem duplicate_kept_once (st : St) (c fn ud p : Nat) (flt : Filter) (id : Str) (user : Bool) :
+    (hasKey (st.conns c).handlers fn ud = true → handlerAdd st c fn ud flt user = st) ∧
+    (hasKey ((st.conns c).idTab id) fn ud = true → idHandlerAdd st c fn ud id user = st) ∧
+    (hasKey (st.conns c).timed fn ud = true → timedAdd st c fn ud p user = st) ∧
+    (hasKey st.gtimed fn ud = true → globalTimedAdd st fn ud p = st) := by
+  refine ⟨fun h => by simp [handlerAdd, h], fun h => by simp [idHandlerAdd, h],
+    fun h => by simp [timedAdd, timedAddList, h], fun h => by simp [globalTimedAdd, timedAddList, h]⟩
+
+/-- … and in every reachable state no list holds the same callback × user data twice -/
+theorem no_duplicates_reachable (beh : Beh) (ops : List Op) (st : St) (h : run beh {} ops = .ok st) (c : Nat) (id : Str) :
+    ((st.conns c).handlers.map (·.key)).Nodup ∧ (((st.conns c).idTab id).map (·.key)).Nodup ∧
+    ((st.conns c).timed.map (·.key)).Nodup ∧ (st.gtimed.map (·.key)).Nodup :=
+  have w := wf_reachable beh ops st h
+  ⟨(w.h c).kd, (w.i c id).kd, (w.t c).kd, w.g.kd⟩
+
+/-! ### removed means removed -/
+
+/-- allocation numbers identify registrations: in every reachable state no two items of ANY two lists
+    share one -/
+theorem registrations_unique (beh : Beh) (ops : List Op) (st : St) (h : run beh {} ops = .ok st) : Disj st :=
+  (run_gone beh ops {} st wf_init disj_init h).2.1
+
+/-- FALSE_OR_DELETED_NEVER_AGAIN (1): a handler whose callback returned false is in no list once the
+    operation (dispatch or timed pass) is over -/
+theorem returned_false_is_gone (beh : Beh) (ops : List Op) (st st' : St) (op : Op)
+    (h : run beh {} ops = .ok st) (h' : step beh st op = .ok st') :
+    ∃ L, st'.log = st.log ++ L ∧ ∀ v ∈ L, v.ret = false → Gone v.uid st' := by
+  obtain ⟨_, _, _, L, e, _, r⟩ :=
+    step_gone beh st st' op (wf_reachable beh ops st h) (registrations_unique beh ops st h) h'
+  exact ⟨L, e, r⟩
+
+/-- (2): after `xmpp_handler_delete` / `xmpp_id_handler_delete` / `xmpp_timed_handler_delete` /
+    `xmpp_global_timed_handler_delete` — called from outside or from a callback — every registration of
+    that callback function in that list is in no list -/
+theorem deleted_is_gone (beh : Beh) (ops : List Op) (st : St) (h : run beh {} ops = .ok st)
+    (a : Act) (l : Loc) (fn : Nat) (hl : actLoc a = some l) (hd : deletesFn fn a = true)
+    (x : Item) (hx : x ∈ listAt st l) (hf : x.fn = fn) : Gone x.uid (applyAct st a) :=
+  deleted_gone st (wf_reachable beh ops st h) (registrations_unique beh ops st h) a l fn hl hd x hx hf
+
+/-- (3): a registration that is in no list is never called again and never comes back, whatever
+    happens afterwards (re-registering the same callback × user data makes a NEW registration) -/
+theorem gone_never_again (beh : Beh) (ops ops' : List Op) (st st' : St) (u : Nat)
+    (h : run beh {} ops = .ok st) (hg : Gone u st) (h' : run beh st ops' = .ok st') :
+    Gone u st' ∧ ∃ L, st'.log = st.log ++ L ∧ ∀ v ∈ L, v.uid ≠ u := by
+  obtain ⟨_, _, g, L, e, n, _⟩ :=
+    run_gone beh ops' st st' (wf_reachable beh ops st h) (registrations_unique beh ops st h) h'
+  exact ⟨g u hg, L, e, fun v hv hu => n v hv (hu ▸ hg)⟩
+
+/-! ### timed handlers -/
+
+/-- TIMED_NOT_EARLY: in every reachable state, every logged invocation of a timed handler (connection
+    or context-wide) happened at a time `t` with `t − last_stamp ≥ period`, where `last_stamp` is the
+    stamp the loop read from the item (`timed_stamps`: the time of its registration, of the last
+    `handler_reset_timed` that applied to it, or of its last invocation, whichever is latest) -/
+theorem timed_not_early (beh : Beh) (ops : List Op) (st : St) (h : run beh {} ops = .ok st) :
+    ∀ v ∈ st.log, v.cls ≠ .stanza → v.time - v.last ≥ v.period := by
+  intro v hv hc
+  rcases run_log_ok beh ops {} st wf_init h (by simp) v hv with h1 | h1
+  · exact absurd h1 hc
+  · exact h1
+
+/-- where the stamp comes from: registration stamps with the current time … -/
+theorem timed_stamps_add (st : St) (c fn ud p : Nat) (user : Bool) (h : hasKey (st.conns c).timed fn ud = false) :
+    ∃ it, ((timedAdd st c fn ud p user).conns c).timed = it :: (st.conns c).timed ∧
+      it.last = st.now ∧ it.period = p ∧ it.uid = st.nextUid := by
+  refine ⟨{ uid := st.nextUid, fn, ud, user, enabled := false, period := p, last := st.now }, ?_, rfl, rfl, rfl⟩
+  simp [timedAdd, timedAddList, h]
+
+/-- … `handler_reset_timed` re-stamps (all, or the user's) with the current time … -/
+theorem timed_stamps_reset (st : St) (c : Nat) (userOnly : Bool) :
+    ((resetTimed st c userOnly).conns c).timed =
+      (st.conns c).timed.map fun it => if userOnly = false ∨ it.user = true then { it with last := st.now } else it := by
+  simp only [resetTimed, updConn_conns_same]
+  apply List.map_congr_left
+  intro it _
+  cases userOnly <;> cases it.user <;> simp
+
+/-- … and the loop stamps an item with the current time right before it calls it -/
+theorem timed_stamps_fire (l : List Item) (u now : Nat) :
+    ∀ x ∈ setLast l u now, (x.uid = u → x.last = now) ∧ (x.uid ≠ u → x ∈ l) := by
+  intro x hx
+  unfold setLast at hx
+  obtain ⟨y, hy, rfl⟩ := List.mem_map.mp hx
+  by_cases h : y.uid = u
+  · simp [h]
+  · simp [h, hy]
+
+/-- TIMED_FIRES_WHEN_DUE (connection handlers): a timed handler of a connected connection (user
+    handlers: negotiated) that is due when the connection's turn comes in `handler_fire_timed` is
+    invoked in that very pass, at a time not before the pass started — unless a callback invoked earlier
+    in the pass deleted its callback function -/
+theorem timed_fires_when_due (beh : Beh) (st : St) (c : Nat) (w : WF st) (it : Item)
+    (hit : it ∈ (st.conns c).timed) (hc : (st.conns c).connected = true)
+    (hg : it.user = true → (st.conns c).negotiated = true) (hd : st.now - it.last ≥ it.period)
+    (st' : St) (h : fireTimedConn beh st c = .ok st') :
+    ∃ L, st'.log = st.log ++ L ∧
+      ((∃ v ∈ L, v.uid = it.uid ∧ v.cls = .timed ∧ v.conn = c ∧ st.now ≤ v.time) ∨
+       (∃ v ∈ L, ∃ n, Act.delTimed c it.fn ∈ (beh ⟨v.fn, v.ud⟩ n).acts)) :=
+  timed_due_fires beh st c w it hit hc hg hd st' h
+
+/-- TIMED_FIRES_WHEN_DUE (context-wide handlers): always, whatever the connections' states -/
+theorem global_timed_fires_when_due (beh : Beh) (st : St) (w : WF st) (it : Item)
+    (hit : it ∈ st.gtimed) (hd : st.now - it.last ≥ it.period)
+    (st' : St) (h : globalLoop beh st.gtimed.length st st.gtimed = .ok st') :
+    ∃ L, st'.log = st.log ++ L ∧
+      ((∃ v ∈ L, v.uid = it.uid ∧ v.cls = .global ∧ st.now ≤ v.time) ∨
+       (∃ v ∈ L, ∃ n, Act.delGlobal it.fn ∈ (beh ⟨v.fn, v.ud⟩ n).acts)) :=
+  global_due_fires beh st w it hit hd st' h
+
+/-- TIMED_ONLY_CONNECTED: the pass over a connection that is not connected does nothing at all … -/
+theorem timed_only_connected (beh : Beh) (st : St) (c : Nat) (h : (st.conns c).connected = false) :
+    fireTimedConn beh st c = .ok st :=
+  fireTimedConn_disconnected beh st c h
+
+/-- … so every connection-handler invocation of a whole `handler_fire_timed` belongs to a connection
+    that is connected (context-wide handlers carry no such condition: `global_timed_fires_when_due`) -/
+theorem timed_invocations_connected (beh : Beh) (st st' : St) (w : WF st) (h : fireTimed beh st = .ok st') :
+    ∃ L, st'.log = st.log ++ L ∧
+      ∀ v ∈ L, (v.cls = .timed ∧ (st.conns v.conn).connected = true) ∨ v.cls = .global := by
+  have sp := fireTimed_post beh st w
+  rw [h] at sp
+  obtain ⟨_, _, _, _, _, L, e, hL⟩ := sp
+  exact ⟨L, e, fun v hv => (hL v hv).2.2⟩
+
+/-! ### non-vacuity -/
+
+def fnsOf : Except Err St → List (Nat × Nat)
+  | .ok st => st.log.map fun v => (v.fn, v.ud)
+  | .error _ => [(999, 999)]
+
+def quiet : Beh := fun _ _ => {}
+
+/-- id handler first, then the stanza handlers that match (by child namespace, by name), in
+    registration order; the non-matching one and the duplicate registration are not called -/
+example :
+    fnsOf (run quiet {} [.add 0 1 0 { ns := some [7] } true, .add 0 2 0 { name := some [9] } true,
+      .add 0 3 0 { type := some [5] } true, .add 0 1 0 {} true, .addId 0 4 0 [8] true,
+      .fire 0 { name := some [9], id := some [8], children := [none, some [7]] }]) = [(4, 0), (1, 0), (2, 0)] := by
+  decide
+
+/-- the id handler 4.0 adds stanza handler 5.0 and deletes stanza handler 2: the first stanza reaches
+    4.0 and 1.0 only, the second one also the newcomer -/
+def busy : Beh := fun k n => if k.fn = 4 ∧ n = 0 then { keep := false, acts := [.add 0 5 0 {}, .del 0 2] } else {}
+
+example :
+    fnsOf (run busy {} [.add 0 1 0 {} true, .add 0 2 0 {} true, .addId 0 4 0 [8] true,
+      .fire 0 { name := some [9], id := some [8] }, .fire 0 { name := some [9], id := some [8] }]) =
+      [(4, 0), (1, 0), (1, 0), (5, 0)] := by
+  decide
+
+/-- a timed handler (period 10) is not called after 9 ms, is called after 10 ms, not again at once,
+    and not while its connection is disconnected; the context-wide one (period 10) is -/
+example :
+    fnsOf (run quiet {} [.addTimed 0 1 0 10 true, .addGlobal 2 0 10, .tick 9, .fireTimed, .tick 1, .fireTimed,
+      .fireTimed, .setConnected 0 false, .tick 10, .fireTimed]) = [(1, 0), (2, 0), (2, 0)] := by
+  decide
+
+/-- hypotheses of `no_stale_access_partial`: `quiet` and `busy` do not delete themselves -/
+example : ¬ SelfDeleting quiet := by
+  rintro ⟨k, n, a, ha, _⟩
+  simp [quiet] at ha
+
+example : ¬ SelfDeleting busy := by
+  rintro ⟨k, n, a, ha, hd⟩
+  unfold busy at ha
+  split at ha
+  · rename_i h
+    simp at ha
+    rcases ha with rfl | rfl
+    · simp [deletesFn] at hd
+    · simp [deletesFn] at hd; omega
+  · simp at ha
+
+/-- hypotheses of `gone_never_again` / `returned_false_is_gone`: after the first dispatch of the
+    `busy` scenario registration 2 (the id handler, returned false) is in no list -/
+example :
+    (match run busy {} [.add 0 1 0 {} true, .add 0 2 0 {} true, .addId 0 4 0 [8] true,
+        .fire 0 { name := some [9], id := some [8] }] with
+     | .ok st => decide (st.nextUid = 4) && ((st.conns 0).idTab [8]).isEmpty &&
+                 ((st.conns 0).handlers.map (·.uid) == [0, 3])
+     | .error _ => false) = true := by
+  decide
+
 end Strophe.C11
